@@ -26,7 +26,7 @@ public:
     using CellGroupClassTarget = typename TreeClassTarget::CellGroupClass;
 
     using SpacialConfiguration = TbfSpacialConfiguration<RealType, SpaceIndexType::Dim>;
-    using IndexType = typename TbfDefaultSpaceIndexType<RealType>::IndexType;
+    using IndexType = typename SpaceIndexType::IndexType;
 
 protected:
     const SpacialConfiguration configuration;
@@ -46,12 +46,12 @@ public:
         : configuration(inConfiguration), spaceSystem(configuration),
           treeSource(inConfiguration, inParticleSourcePositions,
                      inNbElementsPerBlock == -1 ?
-                         TbfBlockSizeFinder::EstimateTsm<RealType>(inParticleSourcePositions, inParticleTargetPositions, configuration):
+                         TbfBlockSizeFinder::EstimateTsm<RealType, ParticleContainer, ParticleContainer, SpaceIndexType>(inParticleSourcePositions, inParticleTargetPositions, configuration):
                          inNbElementsPerBlock,
                      inOneGroupPerParent),
           treeTarget(inConfiguration, inParticleTargetPositions,
                      inNbElementsPerBlock == -1 ?
-                         TbfBlockSizeFinder::EstimateTsm<RealType>(inParticleSourcePositions, inParticleTargetPositions, configuration):
+                         TbfBlockSizeFinder::EstimateTsm<RealType, ParticleContainer, ParticleContainer, SpaceIndexType>(inParticleSourcePositions, inParticleTargetPositions, configuration):
                          inNbElementsPerBlock,
                      inOneGroupPerParent){
     }
